@@ -166,7 +166,10 @@ class Linear(keras.layers.Layer):
     # internally everything expects monotonicites to be list or tuple rather
     # than single element.
     linear_lib.verify_hyperparameters(
-        num_input_dims=self.num_input_dims, monotonicities=self.monotonicities)
+        num_input_dims=self.num_input_dims,
+        monotonicities=self.monotonicities,
+        input_min=self.input_min,
+        input_max=self.input_max)
 
     self.use_bias = use_bias
     self.normalization_order = normalization_order
